@@ -82,6 +82,10 @@ func addPoint(_ *api.Context, point b6.Geometry, id b6.FeatureID, tags b6.Collec
 	if err := requireGeometry("add-point", point); err != nil {
 		return nil, err
 	}
+	if !point.Point().IsUnit() {
+		// Indexing a point with NaN coordinates panics when the change is applied
+		return nil, fmt.Errorf("add-point: point has invalid coordinates")
+	}
 	// Applying a generic feature with the ID of an area, relation or
 	// collection panics in the world, which expects the specific types.
 	if id.Type != b6.FeatureTypePoint {
